@@ -82,6 +82,7 @@ fn main() {
         "c09_version" => c09::version(thorough),
         "c09_api" => c09::api(thorough),
         "c09_ids" => c09::ids(thorough),
+        "c09_macros" => c09::macros(thorough),
         "c04_apply" => c04::apply(thorough),
         "c05_runtime" => c05::runtime(thorough),
         "c07_toml" => c07::toml_text(thorough),
